@@ -7,6 +7,8 @@ from ..report import AnalysisError
 from ..srcmodel import unparse, norm, walk_no_nested, calls_in, fold_const
 from .common import is_method_call, get_kw, node_obj, fde_guard, F3, parent_chain
 from .tagtable import constructors
+from . import tr
+from ..fde import Opaque
 
 from .common import Guard  # noqa: E402
 
@@ -16,40 +18,122 @@ DECIDED = [
     'R2: once flags / metadata have been folded into the tag variable, every represent_* call on a tagged path passes that variable (not a literal).',
     'R3: the elision loop runs over exactly the four merge-control flags (never over user metadata) and elides a flag only when, under the library\'s own getters and _get_child_kwargs, the node and a child of every type default keep the same effective value (finite tables; two elision cases are known findings).',
     'R4: function nodes are represented with their argument *mapping* (keys preserved), and tagged mappings / sequences are emitted with represent_mapping / represent_sequence of that data.',
+    'R6: PathNode.ayns.value carries source_file for every spelling of the reference points that evaluation resolves against the node\'s own file (file, parent, parent(n)).',
     'R5: a tagged scalar is written as repr() of its native value (quoting preserved so that the implicit resolver gives the same type back).',
 ]
 UNDECIDED = ['the round trip as a whole (text stability, scalar quoting by PyYAML, metadata pickling);', 'priority elision for trees produced by merging (children attached later carry no priority).']
 FLAGS = ['priority', 'delete', 'allow_new', 'safe']
 
 
+ABCS = None
+
+
+def dump_case(repo, cls, flags, parent_md=None, data=None, user_md=None, tag=None, default_safe=None):
+    """_node_representer evaluated (finite-domain evaluator) for one node: the node's own representation triple and the dumper
+    are stand-ins; returns (raised, log) with log entries ('encode', metadata), ('represent_*', args, kwargs, open with-contexts, pushed)"""
+    import collections.abc as cabc
+    rep = repo.func('yaml._node_representer')
+    kw = {'_' + k: v for k, v in flags.items()}
+    if default_safe is not None:
+        kw['_default_safe'] = default_safe
+    node = node_obj('n', cls, **kw)
+    dumper = Obj('dumper', 'AwesomeyamlDumper', metadata=([dict(parent_md)] if parent_md is not None else []), exclude_metadata=set())
+    log = []
+    md = dict(user_md or {})
+    md.update(flags)
+    holder = []
+
+    def stub(name, recv, args, kwargs):
+        if name == 'represent':
+            return (tag, md, data)
+        if name == '_encode_metadata':
+            log.append(('encode', dict(args[0]) if args else {}))
+            return 'ENC'
+        if name.startswith('represent_'):
+            f_ = holder[0]
+            opened = []
+            for e in f_.effects:
+                if e[0] == 'with_enter':
+                    opened.append(e[1])
+                elif e[0] == 'with_exit' and opened:
+                    opened.pop()
+            log.append((name, tuple(args), dict(kwargs), tuple(opened), [dict(x) for x in dumper.f['metadata']]))
+            return Opaque('yaml node')
+        if name == 'force_unquoted':
+            return Opaque('cm')
+        raise AnalysisError('_node_representer: unexpected call of %s' % name)
+    f = FDE(repo, stubs={'represent', '_encode_metadata', 'represent_mapping', 'represent_sequence', 'represent_scalar', 'represent_data', 'force_unquoted'}, stub=stub)
+    holder.append(f)
+    f.externals = {'cabc.Mapping': cabc.Mapping, 'cabc.Sequence': cabc.Sequence, 'cabc.MutableSequence': cabc.MutableSequence, 'cabc.MutableMapping': cabc.MutableMapping}
+    r = fde_guard(lambda: f.call(rep, dumper, node))
+    return r.raised, log
+
+
+FLAG_TAGS = {'priority': {-1: '!weak', 1: '!force'}, 'delete': {True: '!del', False: '!merge'}, 'allow_new': {True: '!new', False: '!notnew'}, 'safe': {True: '!safe', False: '!unsafe'}}
+NOFLAGS = {'priority': None, 'delete': None, 'allow_new': None, 'safe': None}
+# a class / default_safe setting under which the value differs from the type default (so that it cannot be elided)
+CARRIER = {('priority', -1): ('ConfigDict', None), ('priority', 1): ('ConfigDict', None), ('delete', True): ('ConfigDict', None), ('delete', False): ('ConfigList', None),
+           ('allow_new', False): ('ConfigDict', None), ('allow_new', True): None, ('safe', False): ('ConfigDict', True), ('safe', True): ('ConfigDict', False)}
+
+
+def _emit(log):
+    em = [x for x in log if x[0].startswith('represent_')]
+    return em[-1] if em else None
+
+
+def writer_tag_table(repo):
+    """flag value -> tag the writer emits for a node that carries only this flag (None: always elided / never a tag of its own)"""
+    out = {}
+    for f, m in FLAG_TAGS.items():
+        for val in m:
+            car = CARRIER.get((f, val))
+            if car is None:
+                out[(f, val)] = None
+                continue
+            cls, ds = car
+            flags = dict(NOFLAGS)
+            flags[f] = val
+            data = {'k': 1} if cls == 'ConfigDict' else [1]
+            raised, log = dump_case(repo, cls, flags, None, data, default_safe=ds)
+            e = _emit(log)
+            if raised or e is None or not e[1]:
+                raise AnalysisError('_node_representer: %s=%r is not emitted through a represent_* call (%s)' % (f, val, raised))
+            out[(f, val)] = e[1][0] if isinstance(e[1][0], str) else None
+    return out
+
+
 def emitted_tags(repo):
     out = []   # (tag text, is_prefix, where)
     for fi in repo.cha('tag', ayns=True):
-        for r in walk_no_nested(fi.node):
-            if isinstance(r, ast.Return) and r.value is not None:
-                v = r.value
-                if isinstance(v, ast.Constant):
-                    if isinstance(v.value, str):
-                        out.append((v.value, False, fi))
-                elif isinstance(v, ast.BinOp) and isinstance(v.op, ast.Add) and isinstance(v.left, ast.Constant) and isinstance(v.left.value, str):
-                    out.append((v.left.value, True, fi))
-                else:
-                    raise AnalysisError('tag expression %s of %s not recognised' % (norm(v), fi.qualname))
+        for p in tr.paths_of(repo, fi, follow_exceptions=False):
+            if p.status != 'return' or p.ret is None:
+                continue
+            v = p.ret.ast
+            if isinstance(v, ast.Constant):
+                if isinstance(v.value, str):
+                    out.append((v.value, False, fi))
+            elif isinstance(v, ast.BinOp) and isinstance(v.op, ast.Add) and isinstance(v.left, ast.Constant) and isinstance(v.left.value, str):
+                out.append((v.left.value, True, fi))
+            elif isinstance(v, ast.JoinedStr) and v.values and isinstance(v.values[0], ast.Constant) and isinstance(v.values[0].value, str):
+                out.append((v.values[0].value, True, fi))
+            else:
+                raise AnalysisError('tag expression %s of %s not recognised' % (p.ret.text[:60], fi.qualname))
     rep = repo.func('yaml._node_representer')
-    tti = [s for s in walk_no_nested(rep.node) if isinstance(s, ast.Assign) and norm(s.targets[0]) == 'tags_to_infer']
-    if len(tti) != 1 or not isinstance(tti[0].value, ast.Dict):
-        raise AnalysisError('_node_representer: tags_to_infer table not recognised')
-    table = {}
-    for k, v in zip(tti[0].value.keys, tti[0].value.values):
-        table[k.value] = {}
-        for kk, vv in zip(v.keys, v.values):
-            ok, kv = fold_const(repo, kk)
-            table[k.value][kv if ok else norm(kk)] = vv.value
-            if vv.value:
-                out.append((vv.value, False, rep))
-    for s in walk_no_nested(rep.node):
-        if isinstance(s, ast.Assign) and norm(s.targets[0]) == 'tag' and isinstance(s.value, ast.Constant) and isinstance(s.value.value, str):
-            out.append((s.value.value, s.value.value == '!metadata', rep))
+    table = writer_tag_table(repo)
+    for (f, val), t in table.items():
+        if t:
+            out.append((t.split(':')[0], False, rep))
+    # the data-less node and the metadata-only node
+    raised, log = dump_case(repo, 'ConfigNode', dict(NOFLAGS), None, None)
+    e = _emit(log)
+    if raised or e is None or not isinstance(e[1][0], str):
+        raise AnalysisError('_node_representer: representation of a value-less node not evaluable (%s)' % raised)
+    out.append((e[1][0].split(':')[0], False, rep))
+    raised, log = dump_case(repo, 'ConfigDict', dict(NOFLAGS), None, {'k': 1}, user_md={'note': 'x'})
+    e = _emit(log)
+    if not raised and e is not None and isinstance(e[1][0], str):
+        out.append((e[1][0].split(':')[0], True, rep))      # (a failure of this case is reported by R3b)
+    out = sorted({(t, p_, id(fi)): (t, p_, fi) for t, p_, fi in out}.values(), key=lambda x: (x[0], x[1]))
     return out, table
 
 
@@ -74,67 +158,84 @@ def r1(repo, run):
             run.info('C18.R1', fi, '%s with metadata suffix' % tag, 'no multi-constructor %s: - not reachable from parsed documents (the {{..}} syntax on this tag does not parse either)' % tag)
     if n < 18:
         raise AnalysisError('C18.R1: only %d emitted tags found' % n)
-    want = {'priority': {-1: '!weak', 1: '!force', 0: ''}, 'delete': {True: '!del', False: '!merge'}, 'allow_new': {True: '!new', False: '!notnew'}, 'safe': {True: '!safe', False: '!unsafe'}}
     rep = repo.func('yaml._node_representer')
-    for f, m in want.items():
-        for val, tag in m.items():
-            got = table.get(f, {}).get(val)
-            if got != tag:
-                run.violation('C18.R1', rep, 'tags_to_infer[%r][%r] = %r' % (f, val, got), 'flag %s=%r is written as %r; the reader maps %r to another flag value (documented tag: %r)' % (f, val, got, got, tag))
-            elif tag:
-                e = reader.get(tag)
-                if e is None or e.kwargs != {f: val}:
-                    run.violation('C18.R1', rep, '%s <-> %s=%r' % (tag, f, val), 'writer and reader disagree on the meaning of %s (reader sets %s)' % (tag, e.kwargs if e else None))
-                else:
-                    run.ok('C18.R1', rep, '%s <-> %s=%r' % (tag, f, val), 'writer and reader agree')
+    for (f, val), got in sorted(table.items(), key=str):
+        tag = FLAG_TAGS[f][val]
+        if got is None:
+            continue
+        if got != tag:
+            run.violation('C18.R1', rep, 'writer: %s=%r -> %r' % (f, val, got), 'flag %s=%r is written as %r; the reader maps %r to another flag value (documented tag: %r)' % (f, val, got, got, tag))
+        else:
+            e = reader.get(tag)
+            if e is None or e.kwargs != {f: val}:
+                run.violation('C18.R1', rep, '%s <-> %s=%r' % (tag, f, val), 'writer and reader disagree on the meaning of %s (reader sets %s)' % (tag, e.kwargs if e else None))
+            else:
+                run.ok('C18.R1', rep, '%s <-> %s=%r' % (tag, f, val), 'writer and reader agree')
 
 
 def r2(repo, run):
+    """whatever was folded into the tag is what the represent_* call receives: single flag -> its tag, several flags / user metadata ->
+    <base>:<encoded metadata> carrying all of them, own tag of the node kept as base, value-less node -> !null"""
     rep = repo.func('yaml._node_representer')
-    n = 0
-    for c in calls_in(rep.node):
-        if is_method_call(c, recv='dumper', member=('represent_scalar', 'represent_mapping', 'represent_sequence')):
-            conds = [p for p in parent_chain(c) if isinstance(p, ast.If)]
-            tagged = any(norm(p.test) == 'tag' and any(x is c for b in p.body for x in ast.walk(b)) for p in conds)
-            if not tagged:
-                continue
-            n += 1
-            if norm(c.args[0]) == 'tag':
-                run.ok('C18.R2', (rep.file, c.lineno, rep.qualname), unparse(c)[:90], 'computed tag emitted')
-            else:
-                run.violation('C18.R2', rep, unparse(c), 'a tagged node is written with the literal %s instead of the computed tag: flags / metadata folded into the tag are lost' % norm(c.args[0]), node=c)
-    if n < 4:
-        raise AnalysisError('_node_representer: tagged represent_* calls not recognised (%d)' % n)
+    bad = []
+    rows = 0
+    cases = [
+        ('ConfigDict', {'delete': True}, None, {'k': 1}, None, None, 'represent_mapping', '!del', None),
+        ('ConfigList', {'delete': False}, None, [1], None, None, 'represent_sequence', '!merge', None),
+        ('ConfigDict', {'priority': 1, 'delete': True}, None, {'k': 1}, None, None, 'represent_mapping', '!metadata:ENC', {'priority': 1, 'delete': True}),
+        ('ConfigDict', {}, {'note': 'x'}, {'k': 1}, None, None, 'represent_mapping', '!metadata:ENC', {'note': 'x'}),
+        ('ConfigNode', {'allow_new': False}, None, 5, None, None, 'represent_scalar', '!notnew', None),
+        ('ConfigNode', {'delete': True}, None, 'path', '!xref', None, 'represent_scalar', '!xref:ENC', {'delete': True}),
+        ('ConfigNode', {}, None, None, None, None, 'represent_scalar', '!null', None),
+        ('ConfigNode', {'delete': True}, None, None, None, None, 'represent_scalar', '!null:ENC', {'delete': True}),
+    ]
+    for cls, fl, umd, data, tag, ds, fn, want_tag, want_md in cases:
+        flags = dict(NOFLAGS)
+        flags.update(fl)
+        raised, log = dump_case(repo, cls, flags, None, data, user_md=umd, tag=tag, default_safe=ds)
+        rows += 1
+        e = _emit(log)
+        enc = [x[1] for x in log if x[0] == 'encode']
+        if raised or e is None:
+            raise AnalysisError('_node_representer: case %s %s not evaluable (%s)' % (cls, fl, raised))
+        got_tag = e[1][0] if e[1] else None
+        if e[0] != fn or got_tag != want_tag:
+            bad.append('%s with %s%s%s is written by %s(%r, ...); expected %s(%r, ...): flags / metadata folded into the tag are lost' % (cls, fl or 'no flags', ' + user metadata' if umd else '', ' (own tag %s)' % tag if tag else '', e[0], got_tag, fn, want_tag))
+        elif want_md is not None and (not enc or enc[-1] != want_md):
+            bad.append('%s with %s: encoded metadata %s, expected %s' % (cls, fl or umd, enc[-1] if enc else None, want_md))
+    run.table('C18.R2', rows, 'emitted (function, tag, encoded metadata) over node kinds x flag sets')
+    if bad:
+        run.violation('C18.R2', rep, 'computed tag emitted', '; '.join(bad[:3]))
+    else:
+        run.ok('C18.R2', rep, 'tag / metadata table (%d rows)' % rows, 'computed tag emitted on every tagged path')
 
 
-def _elision_loop(repo):
-    rep = repo.func('yaml._node_representer')
-    loops = [s for s in walk_no_nested(rep.node) if isinstance(s, ast.For) and any(isinstance(x, ast.Delete) for x in ast.walk(s))]
-    if len(loops) != 1:
-        raise AnalysisError('_node_representer: elision loop not recognised')
-    return rep, loops[0]
-
-
-def _elided(repo, rep, loop, flag, current, parent, default):
-    f = FDE(repo)
-    md = {flag: current}
-    env = {'metadata': md, 'parent_metadata': ({flag: parent} if parent is not None else {}), 'type_defaults': {flag: default}, norm(loop.iter): [flag]}
-    fde_guard(lambda: f._run([loop], env, rep))
-    return flag not in md
+def _elided(repo, flag, current, parent, default):
+    cls = {('delete', False): 'ConfigDict', ('delete', True): 'ConfigList'}.get((flag, default), 'ConfigDict')
+    flags = dict(NOFLAGS)
+    flags[flag] = current
+    data = {'k': 1} if cls == 'ConfigDict' else [1]
+    raised, log = dump_case(repo, cls, flags, ({flag: parent} if parent is not None else None), data, default_safe=(default if flag == 'safe' else None))
+    e = _emit(log)
+    if raised or e is None:
+        raise AnalysisError('_node_representer: elision case %s=%r not evaluable (%s)' % (flag, current, raised))
+    enc = [x[1] for x in log if x[0] == 'encode']
+    tag = e[1][0] if e[1] and isinstance(e[1][0], str) else ''
+    kept = any(flag in m for m in enc) or (current in FLAG_TAGS[flag] and tag.split(':')[0] == FLAG_TAGS[flag][current])
+    return not kept
 
 
 def r3(repo, run):
-    rep, loop = _elision_loop(repo)
-    # R3b: iterates exactly the flag names
-    it = norm(loop.iter)
-    src = None
-    for s in walk_no_nested(rep.node):
-        if isinstance(s, ast.Assign) and norm(s.targets[0]) == it:
-            src = norm(s.value)
-    if src not in ('list(tags_to_infer.keys())', 'list(tags_to_infer)', 'tags_to_infer.keys()', 'tags_to_infer') and it not in ('tags_to_infer', 'tags_to_infer.keys()'):
-        run.violation('C18.R3b', rep, 'for %s in %s%s' % (norm(loop.target), it, (' = ' + src) if src else ''), 'the elision loop runs over %s, not over the four merge-control flags: user metadata that happens to equal an ancestor\'s (or is None) is dropped from the dump, although it is never inherited on parse' % (src or it), node=loop)
+    rep = repo.func('yaml._node_representer')
+    # R3b: user metadata is never elided, whatever the ancestors carry
+    raised, log = dump_case(repo, 'ConfigDict', dict(NOFLAGS), {'note': 'x', 'other': None}, {'k': 1}, user_md={'note': 'x', 'other': None})
+    enc = [x[1] for x in log if x[0] == 'encode']
+    if raised:
+        run.violation('C18.R3b', rep, 'dump of a node with user metadata', 'the elision does not stop at the four merge-control flags: a node that carries user metadata cannot be dumped (%s while looking up a type default for a user key)' % raised)
+    elif not enc or enc[-1].get('note') != 'x' or 'other' not in enc[-1]:
+        run.violation('C18.R3b', rep, 'elision of user metadata', 'the elision does not stop at the four merge-control flags: user metadata that happens to equal an ancestor\'s (or is None) is dropped from the dump (%s), although it is never inherited on parse' % (enc[-1] if enc else 'nothing encoded'))
     else:
-        run.ok('C18.R3b', (rep.file, loop.lineno, rep.qualname), 'for %s in %s = %s' % (norm(loop.target), it, src), 'only priority / delete / allow_new / safe can be elided')
+        run.ok('C18.R3b', rep, 'user metadata equal to the ancestor\'s / None is still written', 'only priority / delete / allow_new / safe can be elided')
     gk = repo.func('ComposedNode._get_child_kwargs')
     specs = {
         'delete': dict(defaults=[(False, 'ConfigDict'), (True, 'ConfigList')], child_classes=['ConfigDict', 'ConfigList'], getter='delete'),
@@ -148,7 +249,7 @@ def r3(repo, run):
             for current in (True, False):
                 for parent in F3:
                     rows += 1
-                    if not _elided(repo, rep, loop, flag, current, parent, default):
+                    if not _elided(repo, flag, current, parent, default):
                         continue
                     res = []
                     for expl in (current, None):
@@ -177,12 +278,10 @@ def r3(repo, run):
                           (flag, b['current'], b['parent'], b['default'], flag, b['kept'][0], b['kept'][1], b['elided'][0], b['elided'][1], len(bad)), witness=bad[:4])
         else:
             run.ok('C18.R3', rep, 'elision of %s (%d rows)' % (flag, rows), 'effective values unchanged for node and children')
-    # None is always elided; priority handled by value equality with ancestor / default
     bad = []
     for current in (-1, 0, 1):
         for parent in (None, -1, 0, 1):
-            el = _elided(repo, rep, loop, 'priority', current, parent, 0)
-            # a child re-parsed below an ancestor with explicit priority p gets p pushed down: eliding is sound iff current == (parent if parent is not None else 0)
+            el = _elided(repo, 'priority', current, parent, 0)
             sound = current == (parent if parent is not None else 0)
             if el and not sound:
                 bad.append((current, parent))
@@ -192,57 +291,96 @@ def r3(repo, run):
 
 def r4(repo, run):
     fi = repo.func('FunctionNode.ayns.represent')
-    rets = [s for s in walk_no_nested(fi.node) if isinstance(s, ast.Return)]
-    if len(rets) != 1 or not isinstance(rets[0].value, ast.Tuple) or len(rets[0].value.elts) != 3:
-        run.violation('C18.R4', fi, norm(fi.node.body[-1])[:120], 'function node representation is not the single triple (tag, info, argument mapping)')
-    else:
-        tag, info, data = [norm(e) for e in rets[0].value.elts]
+    verdict = None
+    for p in tr.paths_of(repo, fi, no_inline={'get_node_info_to_save', '_get_value'}, follow_exceptions=False):
+        if p.status != 'return' or p.ret is None or p.ret.elems is None or len(p.ret.elems) != 3:
+            verdict = ('bad', 'function node representation is not the single triple (tag, info, argument mapping)')
+            continue
+        tag, info, data = [e.text for e in p.ret.elems]
         if data not in ('super()._get_value()', 'self', 'dict(self)', 'ConfigDict._get_value(self)'):
-            run.violation('C18.R4', fi, norm(rets[0]), 'the arguments of a function node are not dumped as their mapping (%s): integer keys with gaps / mixed keys do not survive a list or reordered form' % data, node=rets[0])
+            verdict = ('bad', 'the arguments of a function node are not dumped as their mapping (%s): integer keys with gaps / mixed keys do not survive a list or reordered form' % data[:60])
         elif tag != 'self.ayns.tag' or info != 'self.ayns.get_node_info_to_save()':
-            run.violation('C18.R4', fi, norm(rets[0]), 'tag / node info are not the node\'s own', node=rets[0])
-        else:
-            run.ok('C18.R4', fi, norm(rets[0]), 'argument mapping dumped with its keys')
+            verdict = ('bad', 'tag / node info are not the node\'s own')
+        elif verdict is None:
+            verdict = ('ok', 'argument mapping dumped with its keys')
+    if verdict is None:
+        raise AnalysisError('FunctionNode.ayns.represent: no returning path')
+    (run.ok if verdict[0] == 'ok' else run.violation)('C18.R4', fi, 'FunctionNode.ayns.represent', verdict[1])
     rep = repo.func('yaml._node_representer')
-    for kind, fn in (('cabc.Mapping', 'represent_mapping'), ('cabc.Sequence', 'represent_sequence')):
-        arms = [s for s in ast.walk(rep.node) if isinstance(s, ast.If) and norm(s.test).startswith('isinstance(data, %s)' % kind)]
-        okc = arms and any(is_method_call(c, recv='dumper', member=fn) and norm(c.args[1]) == 'data' for c in calls_in(ast.Module(body=arms[0].body, type_ignores=[])))
-        if okc:
-            run.ok('C18.R4', (rep.file, arms[0].lineno, rep.qualname), 'tagged %s -> dumper.%s(tag, data)' % (kind, fn))
+    for cls, data, fn in (('ConfigDict', {'k': 1, 2: 3}, 'represent_mapping'), ('ConfigList', [1, 2], 'represent_sequence')):
+        flags = dict(NOFLAGS)
+        flags['priority'] = 1
+        raised, log = dump_case(repo, cls, flags, None, data)
+        e = _emit(log)
+        if raised or e is None:
+            raise AnalysisError('_node_representer: tagged container not evaluable (%s)' % raised)
+        if e[0] == fn and len(e[1]) >= 2 and e[1][1] is data:
+            run.ok('C18.R4', rep, 'tagged %s -> dumper.%s(tag, data)' % (cls, fn))
         else:
-            run.violation('C18.R4', rep, 'tagged %s' % kind, 'tagged %s data is not written with %s(tag, data)' % (kind, fn))
+            run.violation('C18.R4', rep, 'tagged %s' % cls, 'tagged %s data is not written with %s(tag, data) (written by %s)' % ('mapping' if cls == 'ConfigDict' else 'sequence', fn, e[0]))
     base = repo.func('ConfigNode.ayns.get_node_info_to_save')
-    keys = {s.targets[0].slice.value: norm(s.value) for s in walk_no_nested(base.node) if isinstance(s, ast.Assign) and isinstance(s.targets[0], ast.Subscript) and isinstance(s.targets[0].slice, ast.Constant)}
-    want = {'priority': 'self._priority', 'delete': 'self._delete', 'allow_new': 'self._allow_new', 'safe': 'self._safe'}
-    if keys != want or 'copy.copy(self._metadata)' not in norm(base.node):
-        run.violation('C18.R4', base, 'get_node_info_to_save %s' % keys, 'saved node info is not {user metadata} + the four explicit flags')
+    umd = {'u': 1}
+    node = node_obj('n', 'ConfigNode', _priority=1, _delete=True, _allow_new=False, _safe=False, _metadata=umd)
+    f = FDE(repo)
+    f.extcalls = {'copy.copy': lambda x: dict(x) if isinstance(x, dict) else x, 'copy.deepcopy': lambda x: dict(x) if isinstance(x, dict) else x}
+    r = fde_guard(lambda: f.call(base, node))
+    if r.raised or r.ret != {'u': 1, 'priority': 1, 'delete': True, 'allow_new': False, 'safe': False} or r.ret is umd or umd != {'u': 1}:
+        run.violation('C18.R4', base, 'get_node_info_to_save -> %s' % (r.ret,), 'saved node info is not {a copy of the user metadata} + the four explicit flags')
     else:
         run.ok('C18.R4', base, 'node info = copy of user metadata + explicit priority/delete/allow_new/safe')
 
 
 def r5(repo, run):
     rep = repo.func('yaml._node_representer')
-    n = 0
-    for c in calls_in(rep.node):
-        if is_method_call(c, recv='dumper', member='represent_scalar') and norm(c.args[0]) == 'tag' and len(c.args) > 1:
-            conds = [norm(p.test) for p in parent_chain(c) if isinstance(p, ast.If)]
-            if 'isinstance(data, ConfigScalar)' in conds:
-                n += 1
-                if norm(c.args[1]) == 'repr(data._dyn_base(data))':
-                    run.ok('C18.R5', (rep.file, c.lineno, rep.qualname), unparse(c), 'repr of the native value')
-                else:
-                    run.violation('C18.R5', rep, unparse(c), 'a tagged scalar is not written as repr(native value): tagged scalars bypass PyYAML\'s quoting and are re-resolved on parse, so e.g. the string \'no\' comes back as False', node=c)
-    if n != 1:
-        # the scalar text may be computed in a helper / variable
-        alt = [c for c in calls_in(rep.node) if is_method_call(c, recv='dumper', member='represent_scalar') and norm(c.args[0]) == 'tag' and 'repr(' not in norm(c.args[1]) and "''" != norm(c.args[1]) and 'str(data)' != norm(c.args[1])]
-        if alt:
-            run.violation('C18.R5', rep, unparse(alt[0]), 'a tagged scalar is written from %s, not from repr(native value)' % norm(alt[0].args[1]), node=alt[0])
-        else:
-            raise AnalysisError('_node_representer: tagged ConfigScalar emission not recognised')
-    w = [c for c in calls_in(rep.node) if is_method_call(c, recv='dumper', member='represent_scalar') and norm(c.args[0]) == 'tag']
-    for c in w:
-        if not any(isinstance(p, ast.With) and 'force_unquoted' in norm(p.items[0].context_expr) for p in parent_chain(c)):
-            run.violation('C18.R5', rep, unparse(c), 'tagged scalar emitted outside force_unquoted(): PyYAML would quote the repr() again', node=c)
+    scalar = Obj('scalar', 'ConfigScalar')
+    native = lambda d: 'no'
+    native._fde_ok = True
+    scalar.f['_dyn_base'] = native
+    flags = dict(NOFLAGS)
+    flags['priority'] = 1
+    raised, log = dump_case(repo, 'ConfigScalar', flags, None, scalar)
+    e = _emit(log)
+    if raised or e is None or e[0] != 'represent_scalar':
+        raise AnalysisError('_node_representer: tagged ConfigScalar emission not recognised (%s)' % raised)
+    if len(e[1]) < 2 or e[1][1] != repr('no'):
+        run.violation('C18.R5', rep, 'tagged scalar written as %r' % (e[1][1] if len(e[1]) > 1 else None,), 'a tagged scalar is not written as repr(native value): tagged scalars bypass PyYAML\'s quoting and are re-resolved on parse, so e.g. the string \'no\' comes back as False')
+    elif not any('force_unquoted' in w for w in e[3]):
+        run.violation('C18.R5', rep, 'tagged scalar emission', 'tagged scalar emitted outside force_unquoted(): PyYAML would quote the repr() again')
+    else:
+        run.ok('C18.R5', rep, "tagged scalar 'no' -> represent_scalar(tag, \"'no'\") inside force_unquoted()", 'repr of the native value')
+
+
+def r6(repo, run):
+    """a !path node whose reference point is resolved against its own source file writes that file into the dump (a re-parsed
+    copy lives in another file, or in none): PathNode.ayns.value evaluated for every spelling of the file-relative reference points"""
+    fi = repo.classes['PathNode'].ayns.get('value') if 'PathNode' in repo.classes else None
+    ev = repo.func('PathNode.ayns.on_evaluate_impl')
+    if fi is None:
+        raise AnalysisError('PathNode.ayns.value not found')
+    needs = set()
+    for p in tr.paths_of(repo, ev, no_inline={'on_evaluate_impl'}, follow_exceptions=False):
+        kinds = [t.rsplit('==', 1)[1].strip().strip("'") for t, pol in p.facts if pol and '==' in t and t.rsplit('==', 1)[1].strip().startswith("'")]
+        if kinds and any(e.kind == 'call' and e.callee == 'pathlib.Path' and e.args and e.args[0].text in ('self.ayns.source_file', 'self._source_file') for e in p.events):
+            needs.add(kinds[-1])
+    if not needs:
+        raise AnalysisError('PathNode.on_evaluate_impl: reference points that use the source file not found')
+    spell = {'file': [('file', ('file', None))], 'parent': [('parent', ('parent', 0)), ('parent(1)', ('parent', 1)), ('parent(3)', ('parent', 3))]}
+    bad = []
+    rows = 0
+    for kind in sorted(needs):
+        for text, parsed in spell.get(kind, []):
+            node = node_obj('p', 'PathNode', ref_point=text, _ref_point_parsed=parsed, _source_file='/d/conf.yaml')
+            f = FDE(repo, stubs={'_get_value'}, stub=lambda name, recv, args, kwargs: ['a', 'b'])
+            r = fde_guard(lambda: f.getter(node, 'value'))
+            rows += 1
+            if not isinstance(r, dict):
+                raise AnalysisError('PathNode.ayns.value does not evaluate to a mapping')
+            if r.get('source_file') != '/d/conf.yaml':
+                bad.append(text)
+    if bad:
+        run.violation('C18.R6', fi, 'PathNode.ayns.value', 'a !path:%s node does not carry its source file through a dump (value has %s): the re-parsed node resolves against the location of the dump, not of the original file' % (bad[0], 'no source_file for ' + ', '.join(bad)))
+    else:
+        run.ok('C18.R6', fi, 'PathNode.ayns.value (%d reference-point spellings)' % rows, 'source_file written for every reference point that evaluation resolves against the node\'s own file (%s)' % sorted(needs))
 
 
 def check(repo, run, tier):
@@ -252,6 +390,7 @@ def check(repo, run, tier):
     g(r3, repo, run)
     g(r4, repo, run)
     g(r5, repo, run)
+    g(r6, repo, run)
     g.done()
 
 
